@@ -174,6 +174,18 @@ def runPeriod (r : Report) (s : Section) : Report := Id.run do
   let npre := max 1 (kvNat s.cfg "npre" 1)
   let pre (j : Nat) : String := s!"p{j % npre}:"
   if npre > 1 then r := r.addCover "p-sec-several-prefixes"
+  let typeOk := (kv? s.cfg "rtype").getD "node" != "bogus"
+  if !typeOk then r := r.addCover "p-sec-client-type-unsupported"
+  -- `getRedis` rejects the client's type: `(Unknown, err)` before anything is sent, whatever the context
+  let badType (r : Report) (l : Line) (d : PDrv) (k0 k : String) : Report := Id.run do
+    let mut r := r.addCover "p-take-client-type-unsupported"
+    let res := (PVSys.take quota 0 false ⟨d.sys.store, d.conn⟩ k).2
+    let model := s!"{res.1.1.toNat} {res.1.2.str} {dumpKey d.sys.store "cnt" k} {tripsStr res.2}"
+    let implCmp := joinSp (l.obs.take 4)
+    if model ≠ implCmp then r := r.mismatch s.idx l.idx model implCmp
+    if l.obs.headD "?" ≠ "0" || (l.obs.drop 1).headD "nil" = "nil" then
+      r := r.violation s.idx l.idx s!"period: the store client cannot reach any server (unsupported type) but take {k0} answered [{joinSp (l.obs.take 2)}] (must be Unknown + error)"
+    return r
   for l in s.lines do
     r := { r with ops := r.ops + 1 }
     let impl := joinSp l.obs
@@ -216,6 +228,9 @@ def runPeriod (r : Report) (s : Section) : Report := Id.run do
         if !(l.obs.headD "" == "PANIC" && l.obs.contains "divide") then
           r := r.mismatch s.idx l.idx "PANIC runtime error: integer divide by zero" impl
         continue
+      if !typeOk then
+        r := badType r l d k0 k
+        continue
       -- cancelled context / deadline passed: (Unknown, the context's error), the store is not touched
       r := r.addCover (if ck = .cancelled then "p-take-cancelled" else "p-take-deadline-passed")
       if d.forged.isSome then r := r.addCover "p-take-ctx-error-while-replies-forged"
@@ -249,6 +264,8 @@ def runPeriod (r : Report) (s : Section) : Report := Id.run do
         r := r.addCover "p-align-period-zero-panics"
         if !(l.obs.headD "" == "PANIC" && l.obs.contains "divide") then
           r := r.mismatch s.idx l.idx "PANIC runtime error: integer divide by zero" impl
+      else if !typeOk then
+        r := badType r l d k0 k
       else if d.forged.isSome then
         -- the server answers the EVALSHA itself, the script does not run: decoding of every reply kind
         let f := d.forged.getD .str
@@ -489,6 +506,12 @@ def runToken (r : Report) (s : Section) : Report := Id.run do
   let mut abandoned := false
   if burst = 0 then r := r.addCover "t-sec-burst-zero"
   if ninst > 1 then r := r.addCover "t-sec-several-instances"
+  let typeOk := (kv? s.cfg "rtype").getD "node" != "bogus"
+  if !typeOk then
+    -- `getRedis` rejects the client's type: every script call fails before anything is sent (a store that is down
+    -- for ever, without round trips), no ping can succeed
+    r := r.addCover "t-sec-client-type-unsupported"
+    d := { d with sys := (d.sys.step true c .down).1, up := false, conn := { d.conn with link := .down }, pingOk := false }
   for l in s.lines do
     if abandoned then continue
     r := { r with ops := r.ops + 1 }
@@ -650,7 +673,8 @@ def runToken (r : Report) (s : Section) : Report := Id.run do
     | [verb, i, ns, n] =>
       match (verb == "allow" || verb == "allowc" || verb == "allowx" || verb == "allowd" || verb == "allowf" || verb == "fallow"), i.toNat?, ns.toNat?, n.toNat? with
       | true, some i, some ns, some n =>
-        let ck : CtxKind := if verb == "allowx" then .cancelled else if verb == "allowd" then .expired
+        -- (an unsupported client type is reported by getRedis before the context is looked at)
+        let ck : CtxKind := if !typeOk then .background else if verb == "allowx" then .cancelled else if verb == "allowd" then .expired
           else if verb == "allowf" then .future else .background
         -- the last token is the list of script round trips the call made
         let rtTok := l.obs.getLast?.getD ""
@@ -659,7 +683,8 @@ def runToken (r : Report) (s : Section) : Report := Id.run do
           d := { d with conn := { d.conn with loaded := false } }
           r := r.addCover "t-fallow"
         -- an instance in rescue mode sends nothing; a cancelled context never reaches the server
-        let sent := (d.sys.insts i).alive && ck.sends
+        let sent := (d.sys.insts i).alive && ck.sends && typeOk
+        if !typeOk && (d.sys.insts i).alive then r := r.addCover "t-allow-client-type-unsupported-goes-local"
         let (r', c') := checkTrips r s.idx l.idx s!"{verb} inst={i}" d.conn rtTok sent d.forged.isSome
         r := r'; d := { d with conn := c' }
         if ck = .future then r := r.addCover "t-allow-deadline-far-away"
